@@ -201,7 +201,7 @@ def effects(F, b, depth=0, subst=None):
         if w.owned or not any(isinstance(x, tuple) and x == ('param', 'self') for x in walk(a0)):
             continue
         # iterator plumbing over a &mut borrowed from self (accessor chains)
-        if c.name in ('next', 'into_iter', 'enumerate', 'zip', 'rev', 'map', 'filter', 'flatten'):
+        if c.name in ('next', 'into_iter', 'iter_mut', 'enumerate', 'zip', 'rev', 'map', 'filter', 'flatten', 'all', 'any'):
             continue
         unknown.append(('call', w))
     return R, out, unknown
@@ -402,9 +402,8 @@ def match_contract(ctx, F, b, R, effs, link, calls):
             # guard: num_children(p) == 1 on every path to the effects
             for e in sets + rem:
                 lits = literals(b, R, e.bb)
-                if not has_lit(lits, 'true', lambda x: x[0] == 'bin' and x[1] == 'Eq' and (
-                        (x[2][0] == 'call' and x[2][1] == 'Tree::num_children' and s(x[2][2][1]) == s(p) and x[3] == ('const', 1)) or
-                        (x[3][0] == 'call' and x[3][1] == 'Tree::num_children' and s(x[3][2][1]) == s(p) and x[2] == ('const', 1)))):
+                from .prune import cmp_facts
+                if not any(op == 'Eq' and x[0] == 'call' and x[1] == 'Tree::num_children' and s(x[2][1]) == s(p) and y == ('const', 1) for op, x, y in cmp_facts(lits)):
                     ctx.bad('C12.R2', site + '#SPLICE:single-child-guard', 'splice effects are not guarded by num_children(p) == 1 (a second child would be orphaned)', e.span)
                     ok = False
                     break
@@ -443,18 +442,28 @@ def match_contract(ctx, F, b, R, effs, link, calls):
             ok = False
         else:
             lits = literals(b, R, leaf[0].bb)
-            if not has_lit(lits, 'true', lambda x: x[0] == 'bin' and x[1] == 'Eq' and x[2][0] == 'call' and x[2][1] == 'Tree::num_children'
-                           and s(x[2][2][1]) == s(p) and x[3] == ('const', 0)):
+            # "p has no child left": num_children(p) == 0, or every slot of p.children is None (all(is_none) / !any(is_some))
+            test_calls = []
+            from .prune import cmp_facts
+            for op_, x_, y_ in cmp_facts(lits):
+                if op_ == 'Eq' and x_[0] == 'call' and x_[1] == 'Tree::num_children' and s(x_[2][1]) == s(p) and y_ == ('const', 0):
+                    test_calls.append(x_[3])
+            for l_ in lits:
+                x = l_[1]
+                if l_[0] in ('true', 'false') and x[0] == 'call' and x[1] in ('Iterator::all', 'Iterator::any') and len(x[2]) == 2 and x[2][1][0] == 'closure' \
+                        and x[2][0][0] == 'field' and x[2][0][2] == 'children' and node_key(x[2][0][1]) is not None and s(node_key(x[2][0][1])) == s(p):
+                    cb_ = F.closure(x[2][1][1])
+                    rets_ = [e for _, e in Resolver(cb_).return_expr()] if cb_ is not None else []
+                    if len(rets_) == 1 and rets_[0][0] == 'call' and rets_[0][2] and rets_[0][2][0][0] == 'param':
+                        want = {('Iterator::all', 'true'): 'Option::is_none', ('Iterator::any', 'false'): 'Option::is_some'}.get((x[1], l_[0]))
+                        if rets_[0][1] == want:
+                            test_calls.append(x[3])
+            if not test_calls:
                 ctx.bad('C12.R2', site + '#DETACH:isleaf-guard', 'p.isleaf := true must be conditional on num_children(p) == 0', leaf[0].span)
                 ok = False
             elif slot:
                 # the count must be taken after the slot was cleared
-                nb = [l_[-1] for l_ in lits if l_[0] == 'true' and l_[1][0] == 'bin' and l_[1][2][0] == 'call' and l_[1][2][1] == 'Tree::num_children']
-                cnt_bb = nb[0]
-                call_bb = None
-                for bb_, t_ in b.calls_to('Tree::num_children'):
-                    if cfg.dominates(bb_, cnt_bb):
-                        call_bb = bb_
+                call_bb = test_calls[0]
                 if call_bb is None or not cfg.dominates(slot[0].bb, call_bb):
                     ctx.bad('C12.R2', site + '#DETACH:count-order', 'num_children(p) is evaluated before p.children[l] is cleared', leaf[0].span)
                     ok = False
@@ -501,7 +510,7 @@ def match_contract(ctx, F, b, R, effs, link, calls):
         pushes = []
         for bb_, t_ in b.calls():
             c_ = Callee(t_['func'])
-            if c_.name in ('push', 'push_back') and s(R.call_args(bb_)[0]) == s(wl):
+            if c_.name in ('push', 'push_back', 'extend') and s(R.call_args(bb_)[0]) == s(wl):
                 pushes.append((bb_, R.call_args(bb_)[1]))
         good_push = False
         for bb_, v in pushes:
